@@ -9,6 +9,29 @@ BASE = ("Trusted: Coq 8.16.1 kernel (vm_compute; no native_compute), no axioms (
 TECH = "machine-checked proof (Coq) + translator-regenerated tables + model/implementation correspondence"
 
 CLAIMS = {
+    "C09": ("Coq theorem over all file-system states, handlers, handler results and single injected faults (Fs.v/Helper.v model of InputOutputHelper): whenever a real run reports "
+            "Replaced for a single-link file, the path names a new regular inode holding the handler's output with the original 12-bit mode and ns mtime, owner as far as chown was "
+            "permitted, temp name gone, all other names as before; plus the kernel rule showing the chown/chmod order matters. Tied to the code by strace'd CLI runs (operation order, "
+            "class, final snapshot = model) over set-id/sticky modes, owners, mtimes, 1..3 links, stale temp; a snapshot oracle judges mode/owner/mtime/inode/link preservation.",
+            "Modelled, not verified: Linux semantics of rename/chown/chmod/O_EXCL as abstracted in Fs.v; the multi-link in-place rewrite and 'each inode once' are checked by correspondence and oracle only (no theorem yet).",
+            "DESIGN.md section 5-C09"),
+    "C10": ("Coq theorem: in check mode, for every handler result (errors and panics included), shape, profile and any single failing operation, the file system after the run and at every "
+            "intermediate point IS the initial one and only non-mutating operations are issued. Tied to the code by strace'd --check runs (no mutating syscall; snapshot incl. directory "
+            "mtimes unchanged; class/trace = model) and by comparing counts and verdict with a real run on an identical tree, serially and with -j2.",
+            "Modelled, not verified: agreement of check-mode counts with a real run is established by the differential runs, not by a theorem; zip/jar under --check pending the zip model (F1).",
+            "DESIGN.md section 5-C10"),
+    "C12": ("Coq theorem quantifying over every intermediate file-system state of a run (one per issued operation, i.e. every kill point), every handler, handler result, shape, profile and "
+            "single fault: each state is pre-commit (file entirely original: same inode, content, metadata; every other name but the hidden temp one bound as before) or the one committed "
+            "state produced by rename(tmp,file), which is entirely final. Tied to the code by killing real runs at every traced syscall (strace SIGKILL injection), judging the snapshot, "
+            "matching it against the model's state set, and re-running to convergence.",
+            "Modelled, not verified: kill = stop between two system calls, no power loss; convergence of the rerun is established by the runs, not by a theorem.",
+            "DESIGN.md section 5-C12"),
+    "C19": ("The C12/C09 Coq theorems hold with any single operation failing (fault = (k, errno) is universally quantified): all states stay old-or-final and a reported replacement is complete. "
+            "Tied to the code by strace error injection (ENOSPC/EIO/EACCES/EPERM) on the first occurrence of every file-system operation kind, comparing class and final state with "
+            "the model run under the same fault; oracle: file old-or-final, temp removed unless unlink failed, failure counted, exit non-zero, refused chown tolerated; parallel runs whose "
+            "workers are all killed must terminate and fail.",
+            "Modelled, not verified: controller/worker protocol (worker death) is exercised on the real binary only until the Multi model is in place.",
+            "DESIGN.md section 5-C19"),
     "C04": ("Coq theorems for all byte strings and all epochs about a model of Ar::process (slice ranges, integer types, operators, format width, padding rule "
             "regenerated from ar.rs each run): whenever the handler returns normally the input is a well-formed archive ms under an independent ar(5) reader, the output "
             "is exactly render(map normalise ms) (global magic, member order, data and pad bytes identical; name/mode/size/magic header bytes untouched; long-name table "
